@@ -51,6 +51,7 @@ public:
                  * need_delete
                  */
                 lv_.at(pos).init_lv();
+                YK_VP(k_store, &lv_.at(pos), 8, 0);
             }
         }
 
@@ -551,6 +552,7 @@ public:
      */
     void set_lv(const std::size_t index, link_or_value* const nlv) {
         lv_.at(index).set(nlv);
+        YK_VP(k_store, &lv_.at(index), 8, 0);
     }
 
     /**
@@ -577,6 +579,7 @@ public:
                                   const std::size_t shift_size) {
         memmove(get_lv_at(start_pos - shift_size), get_lv_at(start_pos),
                 sizeof(link_or_value) * (key_slice_length - start_pos));
+        YK_VP(k_bulk_store, this, 0, 0);
     }
 
 private:
